@@ -421,6 +421,155 @@ class ScriptGen:
             out.append((b'\x00\x63' + b'\x51' * items + b'\x68', []))          # pushes in a branch not taken
         return out
 
+    # ---- operand matrix: every small / truncated / mis-sized operand the code indexes into -----------
+    # The NUMBER and ORDER of the entries never depend on signature bytes or on a random generator (only on
+    # `big`), so that the index partition over shards is the same in every worker process.
+    SIG_ALPHA = (0x30, 0x02, 0x00, 0x01, 0x80, 0xff, 0x81, 0x03)
+    OPND_TI, OPND_IDX = 1, 1
+
+    def sig_operands(self, big):
+        """[(name, f)] with f(good) -> operand bytes, `good` = a valid DER signature + hash type for the context:
+        every truncation point of it, DER header surgery (outer / r / s lengths +-1, tags, trailing byte, missing hash
+        type), the minimal well-formed DER `30 06 02 01 01 02 01 01`+hash type with the same surgery truncated at
+        every point and padded up to 12 bytes, and ALL strings of length 1..3 (quick: + those of length 4 starting
+        with 0x30; thorough: all of length 4) over {30, 02, 00, 01, 80, ff, 81, 03}."""
+        import itertools
+        out = []
+        for k in range(76):
+            out.append(('trunc%02d' % k, lambda g, k=k: g[:k]))
+
+        def bump(pos_fn, d):
+            def f(g):
+                b = bytearray(g)
+                pos = pos_fn(g)
+                if pos < len(b):
+                    b[pos] = (b[pos] + d) & 0xff
+                return bytes(b)
+            return f
+        for d in (-1, 1, 0x50):
+            out.append(('tag0%+d' % d, bump(lambda g: 0, d)))
+            out.append(('outer%+d' % d, bump(lambda g: 1, d)))
+            out.append(('rtag%+d' % d, bump(lambda g: 2, d)))
+            out.append(('rlen%+d' % d, bump(lambda g: 3, d)))
+            out.append(('stag%+d' % d, bump(lambda g: 4 + g[3], d)))
+            out.append(('slen%+d' % d, bump(lambda g: 5 + g[3], d)))
+            out.append(('hashtype%+d' % d, bump(lambda g: len(g) - 1, d)))
+        out.append(('extra-byte', lambda g: g[:-1] + b'\x00' + g[-1:]))
+        out.append(('no-hashtype', lambda g: g[:-1]))
+        out.append(('two-hashtypes', lambda g: g + g[-1:]))
+        tmpl = bytes.fromhex('3006020101020101')
+        variants = [tmpl]
+        for pos in (0, 1, 2, 3, 5, 6):
+            for d in (-1, 1):
+                variants.append(tmpl[:pos] + bytes([(tmpl[pos] + d) & 0xff]) + tmpl[pos + 1:])
+        for vi, v in enumerate(variants):
+            for htb in (0x01, 0x81, 0x00):
+                full = v + bytes([htb])
+                for k in range(len(full) + 1):
+                    out.append(('mini%d-%02x-%d' % (vi, htb, k), lambda g, x=full[:k]: x))
+                for padn in (1, 2, 3):
+                    out.append(('mini%d-%02x-pad%d' % (vi, htb, padn), lambda g, x=v + b'\x00' * padn + bytes([htb]): x))
+        for L in (1, 2, 3):
+            for t in itertools.product(self.SIG_ALPHA, repeat=L):
+                out.append(('str' + bytes(t).hex(), lambda g, x=bytes(t): x))
+        return out
+
+    def sig_operands4(self, big):
+        import itertools
+        return [('str' + bytes(t).hex(), lambda g, x=bytes(t): x)
+                for t in itertools.product(self.SIG_ALPHA, repeat=4) if big or t[0] == 0x30]
+
+    def pub_operands(self):
+        """[(name, operand)]: every length 0..66 under each prefix 02/03/04/06/07/00/ff, with the coordinates of key 0
+        (valid point; truncated / extended) and with ff.. (no point); the well-formed encodings of the point and of
+        its negation (compressed, uncompressed, hybrid with right and wrong parity byte)."""
+        comp = self.key(0, True)[1]
+        unc = self.key(0, False)[1]
+        x, y = unc[1:33], unc[33:65]
+        out = []
+        for p in (0x02, 0x03, 0x04, 0x06, 0x07, 0x00, 0xff):
+            for L in range(67):
+                out.append(('pub%02x-len%02d-coords' % (p, L), (bytes([p]) + x + y + b'\x00\x00')[:L]))
+                out.append(('pub%02x-len%02d-ff' % (p, L), (bytes([p]) + b'\xff' * 66)[:L]))
+        out.append(('pub-comp', comp))
+        out.append(('pub-comp-other-parity', bytes([comp[0] ^ 1]) + x))
+        out.append(('pub-unc', unc))
+        for p in (6, 7):
+            out.append(('pub-hybrid%02x' % p, bytes([p]) + x + y))
+        out.append(('pub-unc-bad-y', b'\x04' + x + bytes([y[0] ^ 1]) + y[1:]))
+        out.append(('pub-zero-x', b'\x02' + b'\x00' * 32))
+        out.append(('pub-x-ge-p', b'\x02' + b'\xff' * 32))
+        return out
+
+    def operand_contexts(self, pub):
+        """[(name, scriptPubKey builder inputs)]: the scripts in which a (signature, public key) operand pair reaches
+        CHECKSIG, CHECKSIGVERIFY, CHECKMULTISIG 1-of-1, 1-of-2 with `pub` in either position, CHECKMULTISIGVERIFY;
+        `dummy` is what precedes the signature push in the scriptSig; `signer` = the key whose signature is valid there."""
+        other = self.key(2)[1]
+        return [('cs', b'', push(pub) + b'\xac', 0),
+                ('csv', b'', push(pub) + b'\xad\x51', 0),
+                ('cms11', b'\x00', b'\x51' + push(pub) + b'\x51\xae', 0),
+                ('cms12a', b'\x00', b'\x51' + push(pub) + push(other) + b'\x52\xae', 2),
+                ('cms12b', b'\x00', b'\x51' + push(other) + push(pub) + b'\x52\xae', 2),
+                ('cmsv11', b'\x00', b'\x51' + push(pub) + b'\x51\xaf\x51', 0)]
+
+    def operand_matrix(self, big, shard, nshards):
+        """yield ('v', scriptSig, scriptPubKey, mask, tag) / ('e', script, stack, mask, tag), partitioned over the shards
+        by the index in fixed-size enumerations; signatures are made after the partition test."""
+        H160 = self.C.Hash160
+        ti, idx = self.OPND_TI, self.OPND_IDX
+        pub0 = self.key(0)[1]
+        cache = self.__dict__.setdefault('_opnd_sig_cache', {})
+
+        def good(signer, script):
+            k = (signer, bytes(script))
+            if k not in cache:
+                cache[k] = self.sign(signer, script, ti, idx)
+            return cache[k]
+
+        def emit(j, sig, pub, tag, ctxs):
+            for ci, (cname, dummy, spk, _signer) in enumerate(ctxs):
+                ssig = dummy + push(sig)
+                yield ('v', ssig, spk, (0, 2)[(j + ci) % 2], '%s-%s' % (tag, cname))
+                yield ('v', ssig + push(spk), b'\xa9' + push(H160(spk)) + b'\x87', (1, 3, 5, 7)[(j + ci) % 4],
+                       '%s-%s-p2sh' % (tag, cname))
+            yield ('e', b'\xac', [sig, pub], 0, tag + '-eval-cs')
+            yield ('e', b'\xad', [sig, pub], 0, tag + '-eval-csv')
+            yield ('e', b'\x51\x7c\x51\xae', [b'', sig, pub], 0, tag + '-eval-cms')     # <sig> <pub> -> 1 <pub> 1 CMS
+
+        # (1) signature operands against the well-formed key 0
+        ctx0 = self.operand_contexts(pub0)
+        for j, (name, f) in enumerate(self.sig_operands(big)):
+            if j % nshards != shard:
+                continue
+            sig = f(good(0, ctx0[0][2]))
+            yield from emit(j, sig, pub0, 'opnd-sig-' + name, ctx0)
+        for j, (name, f) in enumerate(self.sig_operands4(big)):
+            if j % nshards != shard:
+                continue
+            sig = f(b'')
+            yield from emit(j, sig, pub0, 'opnd-sig-' + name, ctx0 if big else ctx0[:1])
+        # (2) public-key operands, with a signature that is valid for the script (made by key 0, whose coordinates the
+        #     operands carry; in the 1-of-2 scripts by the other, well-formed key)
+        for j, (name, pub) in enumerate(self.pub_operands()):
+            if j % nshards != shard:
+                continue
+            ctxs = self.operand_contexts(pub)
+            for ci, (cname, dummy, spk, signer) in enumerate(ctxs):
+                sig = good(signer, spk)
+                ssig = dummy + push(sig)
+                tag = 'opnd-%s-%s' % (name, cname)
+                yield ('v', ssig, spk, (0, 2)[(j + ci) % 2], tag)
+                yield ('v', ssig + push(spk), b'\xa9' + push(H160(spk)) + b'\x87', (1, 3, 5, 7)[(j + ci) % 4], tag + '-p2sh')
+            sig = good(0, b'\xac')
+            yield ('e', b'\xac', [sig, pub], 0, 'opnd-%s-eval-cs' % name)
+            yield ('e', b'\xad', [sig, pub], 0, 'opnd-%s-eval-csv' % name)
+            # the short signature operands against every malformed key length class
+            if len(pub) in (0, 1, 2, 32, 33, 34, 64, 65, 66):
+                for s2 in (b'', b'\x30', b'\x30\x01', b'\x01', b'\x30\x00\x01'):
+                    yield ('e', b'\xac', [s2, pub], 0, 'opnd-%s-shortsig%s-eval' % (name, s2.hex()))
+                    yield ('v', push(s2), push(pub) + b'\xac', 0, 'opnd-%s-shortsig%s' % (name, s2.hex()))
+
     # ---- VerifyScript pairs -------------------------------------------------------------------
     def verify_pairs(self, rng, ti, idx):
         """[(scriptSig, scriptPubKey, tag)]"""
@@ -777,8 +926,17 @@ class C06(Prop, ScriptGen):
                 progs += [b'\x4e\x00\x00\x00\x00', b'\x4e\x01\x00\x00\x00a', b'\x4e\x01\x00\x00', b'\x4e\x01\x00\x00\x00']
         return progs
 
+    def common_rng(self, tier):
+        """structural randomness: identical in every shard (everything that feeds an index-partitioned enumeration)"""
+        import random
+        return random.Random('%s:%s:%s:common' % (getattr(self, 'seed', 0), self.id, tier))
+
     def generate(self, rng, tier, shard, nshards):
+        # Partition discipline: each enumerated section has its own counter starting at 0; the number and order of its
+        # entries depend neither on the per-shard `rng` nor on signature bytes; random choices that feed such an
+        # enumeration come from `crng` (identical in all shards).  `rng` only in the per-shard random sections.
         big = tier == 'thorough'
+        crng = self.common_rng(tier)
         i = 0
         stacks = self.base_stacks()
         # (a) exhaustive 1-opcode programs
@@ -793,6 +951,7 @@ class C06(Prop, ScriptGen):
         # (a') exhaustive 2-opcode programs over the opcodes that are not plain pushes (3 stacks quick, 8 thorough),
         #      and every such opcode in three contexts: with an item on the altstack, inside an executed IF,
         #      inside a branch that is not executed
+        i = 0
         nonpush = [0x4f, 0x50] + list(range(0x61, 0xbb)) + [0xfa, 0xff]
         st8 = [[], [b'\x01', b'\x02', b'\x03'], [b'\x0a', b'\x0b', b'\x0c', b'\x0d', b'\x0e', b'\x02'],
                [b'\x01'], [b'', b'\x01'], [b'\x03', b'\x02', b'\x01', b''], [b'\x80', b'\xff\xff\xff\x7f', b'\x01'],
@@ -803,7 +962,7 @@ class C06(Prop, ScriptGen):
                 if i % nshards != shard:
                     continue
                 for st in (st8 if big else st8[:3]):
-                    yield self.ev(bytes([a, b]), st, 0 if not big else rng.choice(ADMISSIBLE), tag='2op')
+                    yield self.ev(bytes([a, b]), st, 0 if not big else ADMISSIBLE[(a * 131 + b) % len(ADMISSIBLE)], tag='2op')
             i += 1
             if i % nshards != shard:
                 continue
@@ -817,6 +976,7 @@ class C06(Prop, ScriptGen):
             yield self.ev(bytes([a]), [b'\x01'] * 997 + [b'\x02', b'\x02'], 0, tag='op-on-deep-stack')
             yield self.ev(b'\x61' * 200 + bytes([a]), [b'\x01', b'\x02', b'\x03'], 0, tag='op-at-opcount-limit')
         # numeric grid: every unary / binary numeric opcode and WITHIN over boundary operands
+        i = 0
         nums = [-2, -1, 0, 1, 2, 127, 128, -128, 255, 256, 2 ** 31 - 1, -(2 ** 31 - 1)]
         odd = [b'\x80', b'\x00', b'\x00\x80', b'\x01\x00', b'\x00\x00\x00\x80', b'\x00\x00\x00\x00\x80']
         for x in nums:
@@ -837,8 +997,7 @@ class C06(Prop, ScriptGen):
                     yield self.ev(bytes([op]) + (b'\x68' if op in (0x63, 0x64) else b''), [o], 0, tag='numgrid1-noncanonical')
         # every hash type byte 0..255 with a signature that is valid for it (exhaustive)
         for ht in range(256):
-            i += 1
-            if i % nshards != shard:
+            if ht % nshards != shard:
                 continue
             ti = 1
             idx = ht % 3
@@ -848,14 +1007,16 @@ class C06(Prop, ScriptGen):
             if ht % 16 == 3:
                 yield self.ev(sc, [self.sign(ht % 4, sc, ti, 0, ht), pub], 0, ti, idx, tag='hashtype-wrong-index')
         # (c) limit probes
-        for (sc, st) in self.limit_probes(rng):
+        i = 0
+        for (sc, st) in self.limit_probes(crng):
             i += 1
             if i % nshards != shard:
                 continue
             for mask in (0, 15) if not big else ADMISSIBLE:
                 yield self.ev(sc, st, mask, tag='limit')
         # mined literals as counts: items / ops / bytes around every literal of the anchored functions
-        for v in self.pool:
+        i = 0
+        for v in sorted(set(self.pool)):
             if 1 <= v <= 10002:
                 i += 1
                 if i % nshards != shard:
@@ -889,6 +1050,7 @@ class C06(Prop, ScriptGen):
                 for mask in (0, 2) + ((3, 11) if big else ()):
                     yield self.ev(sc, st, mask, ti, idx, tag='multisig')
         # (g) CHECKMULTISIG matrix: exhaustive signature lists for n <= 3 keys (n = 4 in thorough)
+        i = 0
         for n in ((1, 2, 3, 4) if big else (1, 2, 3)):
             ti = n % 3
             idx = 0
@@ -898,18 +1060,22 @@ class C06(Prop, ScriptGen):
                     continue
                 yield self.vf(sg_, spk_, mask, ti, idx, tag=tag)
         # (f) SEQUENCE cases (histories of calls in one process)
-        hist = self.seq_histories(rng, ADMISSIBLE)
+        i = 0
         for rep in range(3 if big else 1):
-            for (tag, steps) in (hist if rep == 0 else self.seq_histories(rng, ADMISSIBLE)):
+            for (tag, steps) in self.seq_histories(crng, ADMISSIBLE):
                 i += 1
                 if i % nshards != shard:
                     continue
                 yield Case(op='c06.seq', args=[x for st_ in steps for x in st_], tag=tag)
         # (d) VerifyScript
+        # quick: one list built from `crng` (the same in every shard), partitioned by index;
+        # thorough: 16 lists per shard from the shard's own `rng`, no partition
+        i = 0
         for _ in range(16 if big else 1):
-            ti = rng.randrange(3)
-            idx = rng.randrange(len(self.txs[ti]['vin']))
-            for (sig, spk, tag) in self.verify_pairs(rng, ti, idx):
+            r_ = rng if big else crng
+            ti = r_.randrange(3)
+            idx = r_.randrange(len(self.txs[ti]['vin']))
+            for (sig, spk, tag) in self.verify_pairs(r_, ti, idx):
                 i += 1
                 if (i % nshards != shard) and not big:
                     continue
